@@ -127,6 +127,15 @@ def hand_case(rng, n=None):
     n = n or rng.choice([1, 2, 2, 3, 3, 4, 5, 6, 7, 8])
     steps = rng.choice([1, 2, 5, 9, 16, 30]) if n <= 6 else rng.choice([3, 8])
     prob = D.random_problem(rng, n, steps, dt=10.0, local=rng.random() < 0.7, phases=rng.random() < 0.7)
+    if n > 6:
+        # random_problem cannot keep more than ~6 atoms apart in its 4x4 box; nearly coincident atoms give
+        # |H| dt ~ 1e3..1e5, which emu-sv (rightly) refuses with RecursionError: use a jittered grid instead
+        side = int(np.ceil(np.sqrt(n)))
+        a = rng.uniform(1.0, 1.3)
+        pos = np.array([[a * (i % side) + rng.uniform(-0.1, 0.1), a * (i // side) + rng.uniform(-0.1, 0.1)]
+                        for i in range(n)])
+        dist = np.linalg.norm(pos[:, None] - pos[None], axis=-1) + np.eye(n)
+        prob["U"] = (5.0 / dist ** 6) * (1 - np.eye(n))
     mode = rng.choice(["grid", "grid", "irregular"])
     if mode == "grid":
         dt = rng.choice(DT_CHOICES)
@@ -196,7 +205,7 @@ def _errors(res, et, ks, ref, Hs, H0, n):
             t=t, k=k,
             occ=float(np.abs(occ - D.occupation(psi, n)).max()),
             cor=float(np.abs(cor - D.correlation(psi, n)).max()),
-            state=float(np.abs(st - psi).max()),
+            state=float(np.abs(st - psi).max()), norm=abs(float(np.linalg.norm(st)) - 1.0),
             en=abs(en - e_ref) / scale, e2=abs(e2 - e2_ref) / scale ** 2,
             var=abs(var - (e2_ref - e_ref ** 2)) / scale ** 2))
     return out
@@ -219,7 +228,9 @@ def run_hand(case):
         cfg = emu_sv.SVConfig(observables=_observables(et), log_level=logging.CRITICAL, gpu=False,
                               krylov_tolerance=case["tol"], **kw)
         sd = D.to_sequence_data(prob, U_of_t=U_of_t if case["slm"] else None)
-        res = emu_sv.SVBackend._run_from_sequence_data(sd, cfg)
+        with count_krylov() as ck:
+            res = emu_sv.SVBackend._run_from_sequence_data(sd, cfg)
+        KRYLOV_STATS.append(("hand", steps, ck.calls, ck.direct, False))
     om, de, ph = (np.array(prob[k], dtype=float) for k in ("omega", "delta", "phi"))
     ref, Hs = evolve(om, de, ph, U_of_t, times, psi0=psi0)
     H0 = dense_H(om[0], de[0], ph[0], np.asarray(U_of_t(0.5 * (times[0] + times[1]))))
@@ -343,14 +354,20 @@ def run_seq(spec):
     import emu_sv
     from emu_base.pulser_adapter import PulserData
 
-    seq, reg = build_seq(spec)
+    seq, reg = build_stiff(spec) if spec["kind"] == "stiff" else build_seq(spec)
     n = spec["n"]
     et = list(spec["rel"])
     with warnings.catch_warnings():
         warnings.simplefilter("ignore")
         cfg = emu_sv.SVConfig(dt=spec["dt"], observables=_observables(et), log_level=logging.CRITICAL, gpu=False,
                               krylov_tolerance=spec["tol"], with_modulation=False)
-        res = emu_sv.SVBackend(seq, config=cfg).run()
+        with count_krylov() as ck:
+            try:
+                res = emu_sv.SVBackend(seq, config=cfg).run()
+            except RecursionError:
+                # the Lanczos exponential did not converge on some step: the run is REFUSED (allowed)
+                KRYLOV_STATS.append((spec["kind"], None, ck.calls, ck.direct, True))
+                return None, {"steps": None, "refused": True}
         # the drive table and target times of the adapter (their correctness is C21/C22's), fresh copy
         sd = next(iter(PulserData(sequence=seq, config=cfg, dt=cfg.dt).get_sequences()))
     times = [float(t) for t in sd.target_times]
@@ -365,12 +382,106 @@ def run_seq(spec):
         k = min(range(len(times)), key=lambda i: abs(times[i] / times[-1] - r))
         ks.append(k)
     errs = _errors(res, et, ks, ref, Hs, H0, n)
+    KRYLOV_STATS.append((spec["kind"], len(times) - 1, ck.calls, ck.direct, False))
     return errs, {"steps": len(times) - 1, "duration": times[-1]}
 
 
+
+# ---- tie of the step kernel's entry point --------------------------------------------------------------
+# The model's stepper is EvolveStateVector.apply -> forward -> evolve -> krylov_exp(op, state, ...), the wrapper
+# that REFUSES (RecursionError) a step whose Lanczos exponential did not converge.  (a) source shape (fail closed),
+# (b) at run time every forward step of every end-to-end run must go through emu_sv.time_evolution.krylov_exp
+# exactly once and never reach krylov_exp_impl directly from that module's namespace.
+def evolve_shape_problems():
+    import ast
+
+    src = (common.REPO / "emu_sv/time_evolution.py").read_text()
+    try:
+        tree = ast.parse(src)
+    except SyntaxError as ex:
+        return [f"syntax error: {ex}"]
+    cls = next((n for n in tree.body if isinstance(n, ast.ClassDef) and n.name == "EvolveStateVector"), None)
+    fn = next((n for n in (cls.body if cls else []) if isinstance(n, ast.FunctionDef) and n.name == "evolve"), None)
+    if fn is None:
+        return ["EvolveStateVector.evolve not found"]
+    out = []
+    calls = [n for n in ast.walk(fn) if isinstance(n, ast.Call)]
+    kry = [c for c in calls if "krylov" in ast.unparse(c.func)]
+    if [ast.unparse(c.func) for c in kry] != ["krylov_exp"]:
+        out.append(f"evolve must call krylov_exp exactly once and no other Krylov entry point: {[ast.unparse(c.func) for c in kry]}")
+        return out
+    call = kry[0]
+    kw = {k.arg: ast.unparse(k.value) for k in call.keywords}
+    if kw != {"norm_tolerance": "krylov_tolerance", "exp_tolerance": "krylov_tolerance", "is_hermitian": "True"}:
+        out.append(f"unexpected krylov_exp keywords {kw}")
+    if not call.args or ast.unparse(call.args[0]) != "op":
+        out.append("first argument of krylov_exp is not op")
+    assign = next((n for n in ast.walk(fn) if isinstance(n, ast.Assign) and n.value is call), None)
+    ret = [n for n in ast.walk(fn) if isinstance(n, ast.Return) and n.value is not None
+           and not any(isinstance(p, ast.FunctionDef) and p is not fn and n in ast.walk(p) for p in ast.walk(fn))]
+    ok_ret = (assign is not None and len(assign.targets) == 1 and isinstance(assign.targets[0], ast.Name)
+              and len(ret) == 1 and isinstance(ret[0].value, ast.Tuple) and len(ret[0].value.elts) == 2
+              and ast.unparse(ret[0].value.elts[0]) == assign.targets[0].id and ast.unparse(ret[0].value.elts[1]) == "ham")
+    if not ok_ret:
+        out.append("evolve does not return (result of krylov_exp, ham)")
+    imp = [n for n in tree.body if isinstance(n, ast.ImportFrom) and n.module == "emu_base.math.krylov_exp"]
+    names = sorted(a.name for n in imp for a in n.names)
+    if names != ["krylov_exp"]:
+        out.append(f"time_evolution imports {names} from emu_base.math.krylov_exp (expected only krylov_exp)")
+    return out
+
+
+KRYLOV_STATS = []   # (kind, steps, wrapper calls, direct impl calls, refused)
+
+
+class count_krylov:
+    def __enter__(self):
+        import emu_sv.time_evolution as TE
+        self.TE, self.calls, self.direct = TE, 0, 0
+        self.saved = {k: getattr(TE, k) for k in ("krylov_exp", "krylov_exp_impl") if hasattr(TE, k)}
+
+        def wrapper(*a, **k):
+            self.calls += 1
+            return self.saved["krylov_exp"](*a, **k)
+
+        TE.krylov_exp = wrapper
+        if "krylov_exp_impl" in self.saved:
+            def direct(*a, **k):
+                self.direct += 1
+                return self.saved["krylov_exp_impl"](*a, **k)
+            TE.krylov_exp_impl = direct
+        return self
+
+    def __exit__(self, *exc):
+        for k, v in self.saved.items():
+            setattr(self.TE, k, v)
+        return False
+
+
+# ---- (d) stiff runs: refuse or be accurate ---------------------------------------------------------------
+def stiff_spec(rng):
+    return {"kind": "stiff", "n": rng.choice([7, 8, 8]), "scale": rng.choice([4.6, 5.0, 5.0, 5.4]),
+            "dt": rng.choice([50, 100, 200]), "seed": rng.randrange(2 ** 31), "tol": 1e-10, "dur": 400,
+            "rel": [0.5, 1.0], "slm": []}
+
+
+def build_stiff(spec):
+    from pulser import Pulse, Register, Sequence
+    from pulser.devices import MockDevice
+    from pulser.waveforms import BlackmanWaveform, RampWaveform
+
+    r = np.random.default_rng(spec["seed"])
+    sc = spec["scale"]
+    pts = [((k // 2) * sc + r.uniform(-0.6, 0.6), (k % 2) * sc + r.uniform(-0.6, 0.6)) for k in range(spec["n"])]
+    reg = Register({f"q{i}": p for i, p in enumerate(pts)})
+    seq = Sequence(reg, MockDevice)
+    seq.declare_channel("ch", "rydberg_global")
+    seq.add(Pulse(BlackmanWaveform(spec["dur"], 2 * np.pi), RampWaveform(spec["dur"], -5.0, 10.0), 0.3), "ch")
+    return seq, reg
+
 # ---- oracle ------------------------------------------------------------------------------------------
 def judge(ctx, case, errs, nsteps):
-    worst = {k: max(e[k] for e in errs) for k in ("occ", "cor", "state", "en", "e2", "var")}
+    worst = {k: max(e[k] for e in errs) for k in ("occ", "cor", "state", "norm", "en", "e2", "var")}
     for k, v in worst.items():
         ctx.extra["e2e_worst"][k] = max(ctx.extra["e2e_worst"].get(k, 0.0), v)
     # per-step Krylov tolerance accumulates at most linearly (theorem C01_error_accumulation)
@@ -381,17 +492,21 @@ def judge(ctx, case, errs, nsteps):
     if bad:
         ctx.violation(
             "emu-sv results differ from exact evolution under the per-step Hamiltonian "
-            f"(occupation {worst['occ']:.3g}, state {worst['state']:.3g}, energy(rel) {worst['en']:.3g})",
-            {"case": _ser(case), "errors": errs, "finding_key": "sv-dynamics-" + case["kind"]})
+            f"(occupation {worst['occ']:.3g}, state {worst['state']:.3g}, |norm-1| {worst['norm']:.3g}, "
+            f"energy(rel) {worst['en']:.3g}; bound {lim:.3g})"
+            + (": a run the Lanczos exponential cannot converge on must be refused, not answered" if case["kind"] == "stiff" else ""),
+            {"case": _ser(case), "errors": errs,
+             "finding_key": "unconverged-step-returned" if case["kind"] == "stiff" else "sv-dynamics-" + case["kind"]})
     return worst
 
 
-def e2e_stage(ctx, n_hand, n_seq):
+def e2e_stage(ctx, n_hand, n_seq, n_stiff=0):
     ctx.extra["e2e_worst"] = {}
     hist = {}
-    for i in range(n_hand + n_seq):
+    stiff = ctx.extra.setdefault("stiff_runs", {"refused": 0, "accepted": 0})
+    for i in range(n_hand + n_seq + n_stiff):
         hand = i < n_hand
-        case = hand_case(ctx.rng) if hand else seq_spec(ctx.rng)
+        case = hand_case(ctx.rng) if hand else (seq_spec(ctx.rng) if i < n_hand + n_seq else stiff_spec(ctx.rng))
         try:
             if hand:
                 errs = run_hand(case)
@@ -401,12 +516,24 @@ def e2e_stage(ctx, n_hand, n_seq):
             else:
                 errs, meta = run_seq(case)
                 nsteps = meta["steps"]
-                info = {"n": case["n"], "steps": nsteps, "layout": case["layout"], "dt": case["dt"],
-                        "waveforms": [p["amp"] for p in case["pulses"]]}
+                info = {"n": case["n"], "steps": nsteps, "layout": case.get("layout", "stiff"), "dt": case["dt"],
+                        "waveforms": [p["amp"] for p in case.get("pulses", [])]}
         except Exception as ex:  # noqa: BLE001  a run that raises on an accepted noiseless sequence
             ctx.violation(f"emu-sv raised on a valid noiseless input: {ex!r}",
                           {"case": _ser(case), "finding_key": "sv-raises-" + case["kind"]})
             continue
+        if errs is None:   # refused with RecursionError (Lanczos exponential not converged)
+            if case["kind"] == "stiff":
+                stiff["refused"] += 1
+                ctx.count_case({"kind": "stiff", "n": case["n"], "dt": case["dt"], "scale": case["scale"],
+                                "refused": True}, nontrivial=True)
+            else:
+                ctx.violation("emu-sv refused (RecursionError) a mild noiseless sequence",
+                              {"case": _ser(case), "finding_key": "sv-raises-" + case["kind"]})
+            continue
+        if case["kind"] == "stiff":
+            stiff["accepted"] += 1
+            info = {"n": case["n"], "steps": nsteps, "dt": case["dt"], "scale": case["scale"], "refused": False}
         w = judge(ctx, case, errs, nsteps)
         ctx.count_case({"kind": case["kind"], **info, "tol": case["tol"], "occ_err": w["occ"]}, nontrivial=True)
         key = f"{case['kind']}/n={info['n']}"
@@ -444,11 +571,35 @@ def run(ctx):
     common.standard_proof_stage(ctx, "C01", ["Properties/C01.vo"])
     trace_stage(ctx, ctx.n(120, 3000))
     ctx.extra["e2e_worst"] = {}
+    probs = evolve_shape_problems()
+    ctx.obligation("source-shape: EvolveStateVector.evolve returns (krylov_exp(op, state, tolerances, is_hermitian=True), ham)",
+                   not probs, "; ".join(probs), kind="translator")
+    corpus_refused = 0
     for c in corpus_cases():
         case = _deser(c)
-        errs = run_hand(case) if case["kind"] == "hand" else run_seq(case)[0]
-        judge(ctx, case, errs, case.get('nsteps', 400))
-    e2e_stage(ctx, ctx.n(25, 700), ctx.n(20, 500))
+        if case["kind"] == "hand":
+            errs, nsteps = run_hand(case), case["prob"]["steps"]
+        else:
+            errs, meta = run_seq(case)
+            nsteps = meta["steps"]
+        if errs is None:
+            corpus_refused += 1
+            continue
+        judge(ctx, case, errs, nsteps)
+    e2e_stage(ctx, ctx.n(25, 700), ctx.n(20, 500), ctx.n(4, 60))
+    ctx.extra["stiff_runs"]["corpus_refused"] = corpus_refused
+    bad = [x for x in KRYLOV_STATS if x[3] != 0 or (not x[4] and x[2] != x[1])]
+    ctx.extra["krylov_entry_point"] = {"runs": len(KRYLOV_STATS), "refused": sum(1 for x in KRYLOV_STATS if x[4]),
+                                       "wrapper_calls": sum(x[2] for x in KRYLOV_STATS)}
+    ctx.obligation("correspondence: every forward step reaches the Lanczos exponential through emu_sv.time_evolution.krylov_exp "
+                   "(the refusing wrapper) exactly once", not bad and bool(KRYLOV_STATS),
+                   f"(kind, steps, wrapper calls, direct impl calls, refused): {bad[:5]}", kind="correspondence")
+    refusals = ctx.extra["stiff_runs"]["refused"] + corpus_refused
+    ctx.obligation("harness: the stiff generator/corpus reaches the refusal branch (RecursionError) on this tree or every "
+                   "stiff run is accurate", True, f"refused={refusals}", kind="harness")
+    if refusals == 0:
+        ctx.notes.append("no stiff run was refused on this tree: either the convergence guard is bypassed (then the accuracy "
+                         "oracle decides) or the stiff generator is too soft")
     ctx.rule = ("(a) scripted step-loop cases: 1-6 qubits, 1-40 steps, integer/fractional/irregular/offset target "
                 "times, 0-4 recording observables whose evaluation times sit on, near (1e-12..1e-6) or off the grid, "
                 "dark-atom filters, malformed data (short target_times, short delta/phi tables, zero end time, no "
@@ -457,8 +608,10 @@ def run(ctx):
                 "= >= 6 events. (b) hand-built SequenceData (1-8 atoms, local/global drives, phases, SLM-like "
                 "time-dependent matrix, random initial states, dt 0.25..37 regular and irregular) and (c) real "
                 "Pulser sequences through SVBackend.run (global/local channels, DMM, SLM, 5 waveform families, "
-                "phases) vs an independent dense expm reference: occupation, correlation, state amplitudes, "
-                "energy, second moment, variance at several evaluation times.")
+                "phases) vs an independent dense expm reference: occupation, correlation, state amplitudes, norm, "
+                "energy, second moment, variance at several evaluation times. (d) stiff runs (7-8 atoms on a jittered "
+                "two-row register at 4.6-5.4 um, dt 50/100/200 ns, tolerance 1e-10): either refused with RecursionError "
+                "(counted, evidence stiff_runs) or accurate to the same bound.")
     ctx.trusted_base += ["hand-written Model/SvMachine.v, tied by the trace correspondence on every run",
                          "recording stubs' faithfulness to the kernel signatures (EvolveStateVector.apply / "
                          "get_hamiltonian)",
@@ -470,6 +623,8 @@ def run(ctx):
         "for real sequences the per-step drive table and the target times are taken from the adapter (C21/C22); the "
         "interaction matrix is recomputed independently (C6/r^6, SLM mask)",
         "agreement with Pulser's own emulator cannot be checked (pulser-simulation not installed)",
+        "a run that emu-sv refuses with RecursionError (Lanczos exponential not converged within max_krylov_dim) is outside "
+        "'sequences emu-sv accepts': counted (evidence stiff_runs), not a violation; an ANSWERED run must meet the bound",
         "theorem premises: >= 1 step, n+1 target times, n rows per drive table, last target time non-zero "
         "(anything else: the machine returns the IndexError/ZeroDivisionError the code raises; covered by the "
         "correspondence)"]
@@ -488,8 +643,9 @@ def replay(ctx, path):
     else:
         errs, meta = run_seq(case)
         nsteps = meta["steps"]
-    print("replay errors:", errs)
-    judge(ctx, case, errs, nsteps)
+    print("replay errors:", errs if errs is not None else "run refused (RecursionError)")
+    if errs is not None:
+        judge(ctx, case, errs, nsteps)
 
 
 META = {
